@@ -115,14 +115,16 @@ type TCP struct {
 }
 
 type StreamOpts struct {
-	TCPHandler  tcpserver.HandlerFunc
-	DTLSHandler dtlsserver.HandlerFunc
-	MaxMsgSize  uint32
-	CacheSize   uint16
-	HSTimeout   time.Duration
-	EnableCSM   bool
-	OnNewTCP    func(cc *tcpclient.Conn)
-	OnNewDTLS   func(cc *udpclient.Conn)
+	TCPHandler   tcpserver.HandlerFunc
+	DTLSHandler  dtlsserver.HandlerFunc
+	MaxMsgSize   uint32
+	CacheSize    uint16
+	HSTimeout    time.Duration
+	EnableCSM    bool
+	Transmission *Transmission                // NSTART / ACK_TIMEOUT / MAX_RETRANSMIT of the server's per-peer connections
+	DTLSExtra    func(cfg *dtlsserver.Config) // further configuration (e.g. a monitor built by the real options)
+	OnNewTCP     func(cc *tcpclient.Conn)
+	OnNewDTLS    func(cc *udpclient.Conn)
 }
 
 func NewTCP(o StreamOpts) *TCP {
@@ -156,11 +158,19 @@ func NewTCP(o StreamOpts) *TCP {
 	return t
 }
 
+// Transmission parameters (RFC 7252 4.8).
+type Transmission struct {
+	NStart        uint32
+	AckTimeout    time.Duration
+	MaxRetransmit uint32
+}
+
 type dtlsOpt func(cfg *dtlsserver.Config)
 
 func (o dtlsOpt) DTLSServerApply(cfg *dtlsserver.Config) { o(cfg) }
 
 type DTLS struct {
+	Tick      func(now time.Time) bool // the housekeeping function the server handed to its PeriodicRunner
 	S         *dtlsserver.Server
 	L         *Listener
 	Errors    []string
@@ -176,13 +186,19 @@ func NewDTLS(o StreamOpts) *DTLS {
 	t.S = dtlsserver.New(dtlsOpt(func(cfg *dtlsserver.Config) {
 		cfg.Handler = o.DTLSHandler
 		cfg.Errors = func(err error) { t.Errors = append(t.Errors, err.Error()) }
-		cfg.PeriodicRunner = func(func(time.Time) bool) {}
+		cfg.PeriodicRunner = func(f func(time.Time) bool) { t.Tick = f }
 		cfg.MessagePool = pool.New(0, 0)
 		cfg.GetToken = func() (message.Token, error) { tok++; return message.Token{0xdd, tok}, nil }
 		cfg.GetMID = func() int32 { mid++; return mid }
 		cfg.BlockwiseEnable = false
 		cfg.HandshakeTimeout = o.HSTimeout
 		cfg.TransmissionMaxRetransmit = 1
+		if o.Transmission != nil {
+			cfg.TransmissionNStart, cfg.TransmissionAcknowledgeTimeout, cfg.TransmissionMaxRetransmit = o.Transmission.NStart, o.Transmission.AckTimeout, o.Transmission.MaxRetransmit
+		}
+		if o.DTLSExtra != nil {
+			o.DTLSExtra(cfg)
+		}
 		if o.MaxMsgSize != 0 {
 			cfg.MaxMessageSize = o.MaxMsgSize
 		}
